@@ -137,6 +137,57 @@ class Program:
                 self._index(rel, tree)
         self._resolve_roles()
 
+    def _params_of(self, cu):
+        """Positional parameter names of a repository callable as a call site sees them (receiver dropped; a class: its __init__ or its dataclass fields)."""
+        node = cu.node
+        if isinstance(node, ast.ClassDef):
+            init = self.by_qual.get((cu.rel, f"{cu.qual}.__init__"))
+            if init is not None:
+                a = init.node.args
+                return [x.arg for x in a.posonlyargs + a.args][1:], len(a.posonlyargs)
+            fields = []
+            for st in node.body:
+                if isinstance(st, ast.AnnAssign) and isinstance(st.target, ast.Name):
+                    if st.value is not None and "kw_only=True" in ast.unparse(st.value):
+                        break  # keyword-only fields are never positional
+                    fields.append(st.target.id)
+            if fields and any("dataclass" in ast.unparse(d) for d in node.decorator_list):
+                return fields, 0
+            return None, 0
+        if not isinstance(node, (ast.FunctionDef, ast.AsyncFunctionDef)):
+            return None, 0
+        a = node.args
+        names = [x.arg for x in a.posonlyargs + a.args]
+        npos = len(a.posonlyargs)
+        is_method = cu.parent_unit is not None and isinstance(cu.parent_unit.node, ast.ClassDef)
+        if is_method and not any(isinstance(d, ast.Name) and d.id == "staticmethod" for d in node.decorator_list):
+            names, npos = names[1:], max(0, npos - 1)
+        return names, npos
+
+    def call_args(self, unit, call):
+        """The argument expressions of a call of a repository function in parameter order: positional ones, then the keywords that name the
+        following positional parameters (`f(a, now=n)` and `f(a, n)` are the same call).  Rules that read "the i-th argument" use this."""
+        args = list(call.args)
+        if not call.keywords or any(isinstance(a, ast.Starred) for a in args) or not isinstance(call.func, (ast.Name, ast.Attribute)):
+            return args
+        cu = self.resolve_callable(unit, call.func) if unit is not None else None
+        if cu is None and isinstance(call.func, ast.Name) and call.func.id in self.classes:
+            cu = self.classes[call.func.id]
+        if cu is None and isinstance(call.func, ast.Attribute) and isinstance(call.func.value, ast.Name) and call.func.value.id in self.classes:
+            c0 = self.classes[call.func.value.id]
+            cu = self.by_qual.get((c0.rel, f"{c0.qual}.{call.func.attr}"))
+        if cu is None:
+            return args
+        names, npos = self._params_of(cu)
+        if not names:
+            return args
+        kws = {k.arg: k.value for k in call.keywords if k.arg is not None}
+        i = len(args)
+        while i < len(names) and names[i] in kws:
+            args.append(kws[names[i]])
+            i += 1
+        return args
+
     # ------------------------------------------------------------------
     def resolve_callable(self, unit, expr):
         """The unit a callable expression denotes when read inside ``unit``: a nested function of it or of an enclosing function, a method of
@@ -329,7 +380,7 @@ class Program:
                 if isinstance(u.node, (ast.FunctionDef, ast.AsyncFunctionDef)):
                     yield u
 
-    def module_const(self, rel: str, name: str):
+    def module_const(self, rel: str, name: str, _depth: int = 0):
         """Return the AST value assigned to module level NAME (last assignment)."""
         val = None
         for stmt in self.module(rel).body:
@@ -340,6 +391,19 @@ class Program:
             elif isinstance(stmt, ast.AnnAssign) and isinstance(stmt.target, ast.Name):
                 if stmt.target.id == name and stmt.value is not None:
                     val = stmt.value
+        if val is None and _depth < 3:
+            # the constant may have been moved to a sibling module and imported back (`from .const import NAME`)
+            for stmt in self.module(rel).body:
+                if isinstance(stmt, ast.ImportFrom) and stmt.level >= 1 and any((a.asname or a.name) == name for a in stmt.names):
+                    orig = next(a.name for a in stmt.names if (a.asname or a.name) == name)
+                    base = os.path.dirname(rel)
+                    for _ in range(stmt.level - 1):
+                        base = os.path.dirname(base)
+                    target = os.path.join(base, *(stmt.module or "").split(".")) if stmt.module else base
+                    for cand in (target + ".py", os.path.join(target, "__init__.py")):
+                        cand = os.path.normpath(cand)
+                        if cand in self.modules:
+                            return self.module_const(cand, orig, _depth + 1)
         if val is None:
             raise AnalysisError(f"module constant {rel}::{name} not found")
         return val
